@@ -52,14 +52,21 @@ class C05(F.Spec):
         ops = ["board relay1", "init", "sentbytes 1", "msg 220 %02x0af0" % T]
         t = 0
         end = 150000
+        # arbitrary local traffic: the device keeps sending channel values the server does not answer; only pings are answered
+        traffic = rng.choice([0, 0, 1500, 2500, 4000])
+        next_tx = traffic
         while t < end:
             step = rng.choice([100, 300, 700, 1000])
             ops.append("adv %d" % step)
             t += step
+            if traffic and t >= next_tx:
+                ops.append("localev 0")
+                next_tx = t + traffic
             if silent_at is None or t < silent_at * 1000:
                 ops.append("pingreply")          # the driver answers a pending ping (see harness)
-        return F.Case("scen%d-T%d-%s" % (i, T, "silent" if silent_at else "ok"), ops,
-                      {"tags": ["kind:scenario", "T:%d" % T], "kind": "scenario", "T": T, "silent_at": silent_at})
+        return F.Case("scen%d-T%d-%s%s" % (i, T, "silent" if silent_at else "ok", "-traffic" if traffic else ""), ops,
+                      {"tags": ["kind:scenario", "T:%d" % T, "traffic:%d" % (1 if traffic else 0)], "kind": "scenario", "T": T,
+                       "silent_at": silent_at})
 
     def derive_model(self, case, raw):
         ops, exp = [], []
